@@ -145,3 +145,9 @@ TreeInv.vos TreeInv.vok TreeInv.required_vos: TreeInv.v Bytes.vos Segment.vos St
 TreeInvFacts.vo TreeInvFacts.glob TreeInvFacts.v.beautified TreeInvFacts.required_vo: TreeInvFacts.v Bytes.vo BytesFacts.vo Segment.vo SegmentFacts.vo Stack.vo StackFacts.vo Collection.vo CollectionFacts.vo Store.vo StoreFacts.vo Tree.vo TreeColl.vo TreeFacts.vo TreeInv.vo
 TreeInvFacts.vio: TreeInvFacts.v Bytes.vio BytesFacts.vio Segment.vio SegmentFacts.vio Stack.vio StackFacts.vio Collection.vio CollectionFacts.vio Store.vio StoreFacts.vio Tree.vio TreeColl.vio TreeFacts.vio TreeInv.vio
 TreeInvFacts.vos TreeInvFacts.vok TreeInvFacts.required_vos: TreeInvFacts.v Bytes.vos BytesFacts.vos Segment.vos SegmentFacts.vos Stack.vos StackFacts.vos Collection.vos CollectionFacts.vos Store.vos StoreFacts.vos Tree.vos TreeColl.vos TreeFacts.vos TreeInv.vos
+TreeCycles.vo TreeCycles.glob TreeCycles.v.beautified TreeCycles.required_vo: TreeCycles.v Bytes.vo Segment.vo Stack.vo Collection.vo Store.vo Tree.vo TreeColl.vo TreeInv.vo
+TreeCycles.vio: TreeCycles.v Bytes.vio Segment.vio Stack.vio Collection.vio Store.vio Tree.vio TreeColl.vio TreeInv.vio
+TreeCycles.vos TreeCycles.vok TreeCycles.required_vos: TreeCycles.v Bytes.vos Segment.vos Stack.vos Collection.vos Store.vos Tree.vos TreeColl.vos TreeInv.vos
+TreeCyclesFacts.vo TreeCyclesFacts.glob TreeCyclesFacts.v.beautified TreeCyclesFacts.required_vo: TreeCyclesFacts.v Bytes.vo BytesFacts.vo Segment.vo SegmentFacts.vo Stack.vo StackFacts.vo Collection.vo CollectionFacts.vo Store.vo StoreFacts.vo Tree.vo TreeColl.vo TreeFacts.vo TreeInv.vo TreeInvFacts.vo TreeCycles.vo FlatRun.vo TreeRun.vo
+TreeCyclesFacts.vio: TreeCyclesFacts.v Bytes.vio BytesFacts.vio Segment.vio SegmentFacts.vio Stack.vio StackFacts.vio Collection.vio CollectionFacts.vio Store.vio StoreFacts.vio Tree.vio TreeColl.vio TreeFacts.vio TreeInv.vio TreeInvFacts.vio TreeCycles.vio FlatRun.vio TreeRun.vio
+TreeCyclesFacts.vos TreeCyclesFacts.vok TreeCyclesFacts.required_vos: TreeCyclesFacts.v Bytes.vos BytesFacts.vos Segment.vos SegmentFacts.vos Stack.vos StackFacts.vos Collection.vos CollectionFacts.vos Store.vos StoreFacts.vos Tree.vos TreeColl.vos TreeFacts.vos TreeInv.vos TreeInvFacts.vos TreeCycles.vos FlatRun.vos TreeRun.vos
